@@ -31,6 +31,9 @@ CLAIMED = {
  'C19': ("Coq proof on a framing model of the pickle stream (opcode classes Fixed/LenPre/Line2/Stop): every proper prefix of a pickle scans as Truncated, a complete pickle is consumed exactly, hence a file cut at ANY byte yields exactly the pickles wholly before the cut and then stops (Frame.v, Reader.v); exhaustive correspondence at every truncation offset of real fit files",
          "Theorems C19_prefix_free/complete/truncation (exact count and end status)/records_prefix/count_bounded for any number and size of records; real files disassembled with pickletools.genops (every opcode mapped to a class, every instruction length checked against its class, unknown opcodes fail closed), Reader.read_all run on the whole file and sampled cuts, FitInfoFile run at EVERY offset and compared with reader_m; yielded records compared with the written ones.",
          "Trusts: Coq kernel; extraction; driver; harness; pickletools' opcode table. That CPython's unpickler behaves like the scanner (no value before STOP, error on an incomplete pickle) is pickle's contract - assumed, exercised at every offset (partial).", "DESIGN.md 7/C19"),
+ 'C06': ("Coq refinement proof that the statement-by-statement model of integrate_subset (searchsorted slices, two-point interpolation, literal end indices, reversal and limit swap) computes G(b)-G(a) for the piecewise-linear response, that each re-binned R_i is that integral over the clipped midpoint bin, and that the R_i telescope to the overlap integral (PLin, Slice, IsubProofs, Rebin, ConvolveProofs); correspondence with Filter.normalize/rebin",
+         "Theorems C06_isub/isub_any_order/bins/conservation/flat/linear/quadrature + the refuted literal index; extracted rebin_m/normalize_m compared with Filter.rebin on 2-60 sample filters (both storage orders, memory or Filter.read) x 2-80 point SED grids (both orders, all overlap kinds, edges on nodes); oracle integrates the response exactly per bin.",
+         "Trusts: Coq kernel; extraction; driver; harness. Float rounding: tolerance 1e-9 of the largest R_i. Filter.read's text parsing and c/lambda are oracles (frequencies taken from the implementation). The sums of convolve_model_dir are covered end to end under C07.", "DESIGN.md 7/C06"),
  'C20': ("Coq proof over the statement-by-statement model of Source.from_ascii (SrcAscii.v: slices, strides, truncating division, setter cross-checks) + correspondence on generated token lists incl. every column count",
          "Theorems C20_layout/reject/accept/flags/eof hold for token lists of any length; the extracted from_ascii_m is run against Source.from_ascii on valid lines (all flag vectors n<=3), every column count 0..3n+6 for n<=12, bad flags, bad numbers; round trips through to_ascii, dict and pickle are checked against the printed precision.",
          "Trusts: Coq kernel; extraction directives; driver; harness. int()/float() conversion of tokens is an oracle computed by Python; text formatting (to_ascii) is exercised, not modelled.", "DESIGN.md 7/C20"),
